@@ -1194,7 +1194,7 @@ class Frame(registering.StoriedRegistrar):
             return
 
         if self.checkLoop(over):
-            raise excepting.ParameterError("Attaching would create loop", "frame", frame)
+            raise excepting.ParameterError("Attaching would create loop", "frame", over)
         else:
             self.detach()
             over.unders.append(self) #add to unders
@@ -1582,8 +1582,8 @@ def resolveFramer(framer, who='', desc='framer', contexts=None,
         if not isinstance(framer, Framer):
             raise excepting.ResolveError("ResolveError: Bad {0} link name, tasker"
                                          " not framer".format(desc),
-                                         self.name,
-                                         aux.name,
+                                         who,
+                                         framer.name,
                                          human,
                                          count)
         if contexts and framer.schedule not in contexts:
